@@ -433,7 +433,7 @@ impl<'a> Gen<'a> {
         let mode = r.below(20);
         for _ in 0..n {
             let c = if matches!(vr, VR::DA | VR::DS | VR::DT | VR::IS | VR::TM | VR::UI) {
-                if mode == 0 { si.rep_char(r) } else { *r.pick(&['0', '1', '2', '9', '.', '-', '+', ' ', 'A', 'z', '_']) }
+                if mode < 5 { si.rep_char(r) } else { *r.pick(&['0', '1', '2', '9', '.', '-', '+', ' ', 'A', 'z', '_']) }
             } else if dflt {
                 if mode < 14 { r.range(0x20, 0x7e) as u8 as char } else { si.rep_char(r) }
             } else { si.rep_char(r) };
